@@ -255,12 +255,22 @@ def inline_call(caller, bi, callee, doc=None):
     gens = [g for g in (callee.get('generics') or []) if not g.startswith("'")]
     gargs = [g for g in (fn.get('generic_args') or []) if not g.startswith("'")]
     tmap = {}
-    if len(gens) == len(gargs):
+    if fn.get('subst_map'):
+        tmap = dict(fn['subst_map'])          # a closure inlined into an instantiated copy of its parent
+    elif len(gens) == len(gargs):
         tmap = {g: a for g, a in zip(gens, gargs) if g != a}
     elif gens:
         return False
     body = {'locals': callee['locals'], 'blocks': callee['blocks'], 'debug': callee.get('debug', [])}
     body = _subst_types(copy.deepcopy(body), tmap, doc)
+    if tmap:
+        # closures built inside the inlined body inherit its generic parameters: remember what they stand for here
+        for cb_ in body['blocks']:
+            for st_ in cb_['stmts']:
+                if st_.get('k') == 'assign' and st_['rv'].get('k') == 'aggregate' and st_['rv'].get('agg') == 'closure':
+                    m_ = dict(st_['rv'].get('parent_substs') or {})
+                    m_.update(tmap)
+                    st_['rv']['parent_substs'] = m_
     base_l = len(caller['locals'])
     base_b = len(caller['blocks'])
     base_p = len(caller.get('promoted') or [])
@@ -1352,7 +1362,7 @@ def expand_closure_calls(doc):
             tty = t['arg_tys'][1]
             if not (tty.startswith('(') and tty.endswith(')')) or tup.get('k') != 'move' or tup['place']['p']:
                 continue
-            parts = _split_top(tty[1:-1])
+            parts = [x for x in _split_top(tty[1:-1]) if x.strip()]
             if len(parts) != cb['arg_count'] - 1:
                 continue
             env_ty = cb['locals'][1]['ty'] if len(cb['locals']) > 1 else ''
@@ -1367,6 +1377,10 @@ def expand_closure_calls(doc):
             args = [envop] + [{'k': 'move', 'place': {'l': tup['place']['l'], 'p': [{'f': str(i), 'i': i, 'ty': ty, 'adt': None}]}} for i, ty in enumerate(parts)]
             cfn = {'path': ck, 'path_args': ck, 'key': ck, 'crate': crate, 'local': True, 'name': ck.rsplit('::', 1)[-1], 'generic_args': [], 'def_kind': 'Closure',
                    'resolved': {'path': ck, 'key': ck, 'local': True, 'crate': crate, 'kind': 'closure', 'desc': 'item'}}
+            ps = [st_['rv'].get('parent_substs') for bb_ in blocks for st_ in bb_['stmts']
+                  if st_.get('k') == 'assign' and st_['rv'].get('k') == 'aggregate' and st_['rv'].get('agg') == 'closure' and st_['rv'].get('closure') == ck]
+            if len(ps) == 1 and ps[0]:
+                cfn['subst_map'] = ps[0]
             blk['term'] = dict(t, func={'k': 'const', 'ty': 'closure', 'text': ck, 'fn': cfn}, args=args, arg_tys=[env_ty] + parts, syn='call')
             inline_call(b, bi, cb, doc)
             n += 1
@@ -1525,3 +1539,56 @@ def _closure_escapes(b, l0):
         if t.get('k') == 'call' and (any(whole(x) for x in t.get('args', [])) or whole(t.get('func'))):
             return True
     return False
+
+
+
+# N3i `core::array::from_fn::<T, N, F>(f)` is `[f(0), f(1), …, f(N-1)]` (calls in index order), for small constant N
+def expand_array_from_fn(doc):
+    n = 0
+    for b in doc['bodies']:
+        blocks = b['blocks']
+        L = b['locals']
+        for blk in list(blocks):
+            t = blk['term']
+            if t.get('k') != 'call' or blk.get('cleanup') or t.get('target') is None or len(t.get('args', [])) != 1 or t['dest']['p']:
+                continue
+            fn = (t.get('func') or {}).get('fn') or {}
+            ga = fn.get('generic_args') or []
+            if fn.get('path') != 'core::array::from_fn' or len(ga) != 3 or not str(ga[1]).isdigit() or not (0 < int(ga[1]) <= 16):
+                continue
+            f = t['args'][0]
+            if f.get('k') != 'move' or f['place']['p'] or 'closure@' not in t['arg_tys'][0]:
+                continue
+            N, elem, cty = int(ga[1]), ga[0], t['arg_tys'][0]
+            line = t.get('line')
+
+            def new_local(ty):
+                L.append({'ty': ty, 'ty_raw': ty, 'name': None, 'mut': True, 'synthetic': True})
+                return len(L) - 1
+
+            def mv(l):
+                return {'k': 'move', 'place': {'l': l, 'p': []}}
+
+            def asg(l, rv):
+                return {'k': 'assign', 'place': {'l': l, 'p': []}, 'rv': rv, 'line': line, 'exp': False, 'syn': 'from_fn'}
+            elems = [new_local(elem) for _ in range(N)]
+            first = len(blocks)
+            cfn = {'path': 'core::ops::FnMut::call_mut', 'path_args': '<%s as core::ops::FnMut<(usize,)>>::call_mut' % cty, 'key': 'core::ops::FnMut::call_mut',
+                   'crate': 'core', 'local': False, 'name': 'call_mut', 'trait': 'core::ops::FnMut', 'self_ty': cty, 'generic_args': [cty, '(usize,)'], 'def_kind': 'AssocFn',
+                   'resolved': {'path': 'core::ops::FnMut::call_mut', 'key': 'core::ops::FnMut::call_mut', 'local': False, 'crate': 'core', 'kind': 'closure', 'desc': 'closure'}}
+            for k in range(N):
+                r_l, i_l, t_l = new_local('&mut ' + cty), new_local('usize'), new_local('(usize,)')
+                blocks.append({'cleanup': False, 'syn': 'from_fn', 'stmts': [
+                    asg(r_l, {'k': 'ref', 'mut': True, 'fake': False, 'place': {'l': f['place']['l'], 'p': []}}),
+                    asg(i_l, {'k': 'use', 'op': {'k': 'const', 'ty': 'usize', 'text': '%d_usize' % k, 'int': k}}),
+                    asg(t_l, {'k': 'aggregate', 'agg': 'tuple', 'fields': [mv(i_l)]})],
+                    'term': {'k': 'call', 'func': {'k': 'const', 'ty': 'fn', 'text': cfn['path_args'], 'fn': dict(cfn)}, 'args': [mv(r_l), mv(t_l)],
+                             'arg_tys': ['&mut ' + cty, '(usize,)'], 'dest': {'l': elems[k], 'p': []}, 'dest_ty': elem, 'target': first + k + 1,
+                             'unwind': t.get('unwind', 'continue'), 'source': 'Normal', 'line': line, 'fn_line': line, 'exp': False, 'syn': 'from_fn'}})
+            blocks.append({'cleanup': False, 'syn': 'from_fn', 'stmts': [
+                {'k': 'assign', 'place': t['dest'], 'rv': {'k': 'aggregate', 'agg': 'array', 'fields': [mv(e) for e in elems]}, 'line': line, 'exp': False, 'syn': 'from_fn'}],
+                'term': {'k': 'goto', 'target': t['target'], 'line': line}})
+            blk['term'] = {'k': 'goto', 'target': first, 'line': line, 'syn': 'from_fn'}
+            n += 1
+    doc.setdefault('meta', {})['expanded_array_from_fn'] = n
+    return doc
